@@ -1,5 +1,5 @@
 From Coq Require Import Extraction ExtrOcamlBasic.
-From OV Require Import Common.Base C10.Model C10.Fine C10.Stale.
+From OV Require Import Common.Base C10.Model C10.Fine C10.Stale C10.Timer.
 Extraction Language OCaml.
 Extraction "C10_model.ml" mkVariant mkCfg init_pair step run is_active xchg xchg_crossed xchgs spec_eff
-  finit fstep frun thrs_of quiescent tracked cfg_smallb sinit sdecide ssync sstep.
+  finit fstep frun thrs_of quiescent tracked cfg_smallb sinit sdecide ssync sstep tick_calls tick_events.
